@@ -153,6 +153,40 @@ def one_case(ctx, kind, inp, user_seed, nregen, check_model=True):
         return None if user else "trivial"
 
 
+def two_dirs_case(ctx, kind, inp, user_seed):
+    """The same model kept in two directories with different user code, regenerated alternately in ONE process (A, B, A, B):
+    every regeneration must leave its own directory exactly as it was and know nothing of the other one."""
+    import random
+    rng = random.Random(user_seed)
+    with scratch() as d:
+        outs = [os.path.join(d, "prodA", "gen"), os.path.join(d, "prodB", "gen")]
+        expected = []
+        try:
+            for o in outs:
+                presv.run_kind(kind, o, inp)
+        except Exception:  # noqa
+            return "trivial"
+        any_user = False
+        for o in outs:
+            t0 = read_tree(o)
+            user = presv.user_blocks(rng, t0, density=1.0)
+            any_user = any_user or bool(user)
+            t1 = splice(t0, user)
+            write_tree(o, t1)
+            expected.append(dict(t1))     # until its first regeneration a directory holds exactly what was written into it
+        for step in range(4):
+            i = step % 2
+            presv.run_kind(kind, outs[i], inp)
+            expected[i] = {k: tabnorm(v) for k, v in expected[i].items()}
+            for j in (0, 1):
+                now = read_tree(outs[j])
+                bad = sorted(k for k in set(expected[j]) | set(now) if expected[j].get(k) != now.get(k))
+                if bad:
+                    return {"kind": kind, "input": inp, "user_seed": user_seed, "two_dirs": True, "failed_at_step": step, "regenerated": "AB"[i],
+                            "changed_dir": "AB"[j], "files": bad[:6], "finding_key": finding_key(kind, inp, bad, now, expected[j])}
+        return None if any_user else "trivial"
+
+
 def finding_key(kind, inp, bad, now, expected):
     if not bad:
         return "%s:returned-list" % kind
@@ -186,6 +220,15 @@ def run(ctx):
                 ctx.sample({"kind": kind, "input": inp, "user_seed": user_seed, "nregen": nregen})
             if res and res != "trivial":
                 ctx.violation("regeneration is not a fixed point / user code not kept", res)
+        for i in range(ctx.budget(1, 6)):
+            _kw, inp = presv.random_input(ctx.rng, kind)
+            inp["lang"] = kind
+            user_seed = ctx.rng.randint(0, 1 << 30)
+            res = two_dirs_case(ctx, kind, inp, user_seed)
+            ctx.case((kind, "two_dirs", json.dumps(inp, sort_keys=True), user_seed), nontrivial=(res != "trivial"))
+            ctx.count("two_dirs_" + kind)
+            if res and res != "trivial":
+                ctx.violation("regenerating one directory changed a directory (the same model kept in two places, regenerated alternately in one process)", res)
     crlf_probe(ctx)
     if ctx.wf_false:
         uniq = sorted(set(ctx.wf_false))
@@ -225,5 +268,8 @@ def replay(ctx, data):
         print("this replay names obligations that no longer check:", json.dumps(data.get("no_longer_checks"), indent=1)[:3000])
         return False
     ctx.wf_false = []
-    res = one_case(ctx, data["kind"], data["input"], data["user_seed"], data["nregen"], check_model=False)
+    if data.get("two_dirs"):
+        res = two_dirs_case(ctx, data["kind"], data["input"], data["user_seed"])
+    else:
+        res = one_case(ctx, data["kind"], data["input"], data["user_seed"], data["nregen"], check_model=False)
     return not (res and res != "trivial")
